@@ -179,7 +179,8 @@ def translate(scn):
     kinds = kid_kinds(scn["kids"])
     line = (f"wait cause={cause} sup={1 if sup else 0} kids={','.join(kinds)} park={1 if park else 0}"
             + (" tl=1" if scn.get("tl") else "") + (" via=children" if scn.get("via") == "children" else "")
-            + (" remote=1" if scn.get("remote") else "") + (" fragile=1" if scn.get("fragile") else "") + " ; "
+            + (" remote=1" if scn.get("remote") else "") + (" fragile=1" if scn.get("fragile") else "")
+            + (" supdrain=1" if scn.get("supdrain") else "") + (" succ=1" if scn.get("succ") else "") + " ; "
             + " ; ".join(hops))
     s0 = "Starting" if cause in STARTING else "Running"
     ks = "[" + "; ".join(KID_STATUS[k] for k in kinds) + "]"
@@ -281,6 +282,11 @@ def gen_scenario(rng):
         scn["remote"] = True            # a remote ActorId (spawn_linked_remote): no name/pid, but pg
     elif cause in FRAGILE_OK and rng.random() < 0.35:
         scn["fragile"] = True           # final State / error value with a panicking destructor
+    if sup and cause != "abort0" and rng.random() < 0.25:
+        scn["supdrain"] = True          # the supervisor is Draining (busy, backlog) when the actor exits
+    if MCAUSE[cause] in ("CStop", "CStopKill", "CAbortPs") and not scn.get("tl") and not scn.get("remote") \
+            and rng.random() < 0.3:
+        scn["succ"] = True              # post_stop spawns a same-named successor
     if sup and cause in STOPLIKE + ("drain",) and ["x"] in ops and rng.random() < 0.35:
         scn["via"] = "children"         # delivered by the supervisor's stop_children() / drain_children()
     return scn
@@ -464,6 +470,24 @@ def exhaustive_audit():
                 out.append(dict(base, ops=[["w", "inline", "none", ""], ["w", helper, "none", "cause"]]
                                 + ([["w", "dc" if helper == "sc" else "sc", "long", ""]] if park else []) + rel
                                 + [["w", "wait", "none", ""]]))
+    # (e) a Draining supervisor at the actor's exit; (f) a same-named successor spawned by post_stop
+    for cause in CAUSES:
+        if cause == "abort0":
+            continue
+        park = cause in KILLPARK
+        ops = [["w", "wait", "none", ""], ["w", "inline", "none", ""], ["x"]]
+        if park:
+            ops.append(["k", "release"])
+        ops += [["w", "join", "none", ""], ["w", "wait", "none", ""]]
+        out.append({"cause": cause, "sup": True, "kids": ["run"], "park": park, "ops": ops, "supdrain": True})
+    for cause in ("stop", "drain", "pserr", "pspanic", "stopkill", "abortps"):
+        for sup in (False, True):
+            for park in ((True,) if cause in KILLPARK else (False, True)):
+                ops = [["w", "wait", "none", ""], ["x"]]
+                if park:
+                    ops += [["w", "inline", "none", ""], ["k", "release"] if cause in KILLPARK else ["g"]]
+                ops += [["w", "stopw", "none", ""], ["w", "wait", "none", ""]]
+                out.append({"cause": cause, "sup": sup, "kids": ["run"], "park": park, "ops": ops, "succ": True})
     # (c) remote-id handles: every workable cause; (d) panicking destructors, unsupervised and supervised
     for cause in REMOTE_OK:
         park = cause in PARKABLE
@@ -593,6 +617,10 @@ def run(chk):
             chk.count("remote_id_actor")
         if scn.get("fragile"):
             chk.count("panicking_destructor")
+        if scn.get("supdrain"):
+            chk.count("supervisor_draining")
+        if scn.get("succ"):
+            chk.count("successor_in_post_stop")
         for kk in kid_kinds(scn["kids"]):
             chk.count("kid." + kk)
         chk.count("source." + src.split(":")[0])
